@@ -107,6 +107,14 @@ class HNode(_Hooks, Node):
     pass
 
 
+class HNodeRO(HNode):
+    """A node class with a read-only property: assigning `ro` must fail, also through a link."""
+
+    @property
+    def ro(self):
+        return 7
+
+
 class HNodeInst(Node):
     """A plain Node class: its hooks are given to each *instance* as attributes
     (e.g. Node("n", _post_attach=callback)), not overridden in the class."""
@@ -330,6 +338,7 @@ class HLightSub(HLight):
 
 
 CLASSES = {
+    "HNodeRO": HNodeRO,
     # the library's own classes, exactly as shipped (no hook routing: used where no fault is injected)
     "PNode": Node,
     "PAny": AnyNode,
@@ -355,6 +364,7 @@ CLASSES = {
     "HLightDict": HLightDict,
 }
 FAMILY = {
+    "HNodeRO": "node",
     "PNode": "node",
     "PAny": "node",
     "PSym": "node",
